@@ -235,17 +235,29 @@ where
 
     fn next(&mut self) -> Option<Self::Item> {
         if !self.c.next_called {
-            if let Bound::Included(s) = self.bounds.start_bound() {
-                let exists = self.c.seek(*s);
-                // if the start key is not there,
-                // skip to the key after where it should be.
-                if !exists {
+            match self.bounds.start_bound() {
+                Bound::Included(s) => {
+                    let exists = self.c.seek(*s);
+                    // if the start key is not there,
+                    // skip to the key after where it should be.
+                    if !exists {
+                        if let Some(data) = self.c.current() {
+                            if data.key() < *s {
+                                self.c.next();
+                            }
+                        }
+                    }
+                }
+                Bound::Excluded(s) => {
+                    self.c.seek(*s);
+                    // skip the start key itself, or the key just before where it should be.
                     if let Some(data) = self.c.current() {
-                        if data.key() < *s {
+                        if data.key() <= *s {
                             self.c.next();
                         }
                     }
                 }
+                Bound::Unbounded => (),
             }
         }
         let next = self.c.next();
